@@ -64,25 +64,27 @@ def main():
         sys.exit(2)
     meta = json.load(open(os.path.join(gdir, "receivers.json")))
     src_lines = open(os.path.join(gdir, "src", "main.rs")).read().split("\n")
-    r = subprocess.run(["cargo", "check", "--message-format=json", "--manifest-path", os.path.join(gdir, "Cargo.toml")],
-                       env=env, stdout=subprocess.PIPE, stderr=subprocess.PIPE, text=True)
     diags = []
-    built_deps = False
-    for line in r.stdout.splitlines():
-        try:
-            m = json.loads(line)
-        except Exception:
-            continue
-        if m.get("reason") == "compiler-message" and m.get("target", {}).get("name") == name:
-            d = m["message"]
-            if d.get("level") == "error":
-                diags.append(d)
-        if m.get("reason") == "build-finished":
-            built_deps = True
-    if r.returncode != 0 and not diags:
-        # a dependency failed or cargo itself: not a verdict about emitted code
-        print(r.stderr[-4000:], file=sys.stderr)
-        sys.exit(2)
+    # the same crate twice: with darling's default features, and without them (feature `suggestions` off)
+    for config, extra in (("default-features", []), ("no-default-features", ["--no-default-features"])):
+        r = subprocess.run(["cargo", "check", "--message-format=json", "--manifest-path", os.path.join(gdir, "Cargo.toml")] + extra,
+                           env=env, stdout=subprocess.PIPE, stderr=subprocess.PIPE, text=True)
+        found = 0
+        for line in r.stdout.splitlines():
+            try:
+                m = json.loads(line)
+            except Exception:
+                continue
+            if m.get("reason") == "compiler-message" and m.get("target", {}).get("name") == name:
+                d = m["message"]
+                if d.get("level") == "error":
+                    d["verif_config"] = config
+                    diags.append(d)
+                    found += 1
+        if r.returncode != 0 and not found:
+            # a dependency failed or cargo itself: not a verdict about emitted code
+            print(r.stderr[-4000:], file=sys.stderr)
+            sys.exit(2)
     ranges = meta["ranges"]
 
     def owner(line):
@@ -133,7 +135,7 @@ def main():
                    "message": "receiver %s does not compile: %s" % (key, d.get("rendered", d.get("message", ""))[:3000]),
                    "case": {"seed": seed, "shard": shard, "n": n, "receiver": key},
                    "rendered": {"source": source, "errors": [x[0].get("message") for x in items][:10]}}, open(path, "w"), indent=1)
-        violations.append({"sig": sig, "msg": "receiver %s does not compile (%s): %s\n%s" % (key, (d.get("code") or {}).get("code"), d.get("message"), source[:1500]), "replay": path})
+        violations.append({"sig": sig, "msg": "receiver %s does not compile with %s (%s): %s\n%s" % (key, d.get("verif_config"), (d.get("code") or {}).get("code"), d.get("message"), source[:1500]), "replay": path})
     # evidence fragment
     classes = {"receivers": len(ranges), "receivers:generated-specs": len(meta["specs"]), "receivers:templates": len(meta["extras"])}
     opt_re = re.compile(r"#\[darling\(")
@@ -157,7 +159,7 @@ def main():
     classes["receivers:generated-generic"] = sum(1 for k, v in meta["extras"].items() if "GG" in v)
     classes["receivers:generic-with-flatten"] = sum(1 for k, v in meta["extras"].items() if "GG" in v and "flatten" in v)
     frag = {"property": "C20", "step": "compile", "seed": seed, "evaluations": len(ranges), "distinct_nontrivial": nontrivial,
-            "rule": "accepted receiver declarations of the C01/C09/C16 option space (%d generated specs with field names from a hostile pool: darling's option words, plausible locals of generated code such as e / i / len / errors / item / value, raw identifiers) plus randomly composed generic receivers (1-3 type parameters named T / U / Item / Vec / Option / Result / Error / FromMeta / Box / String ..., each used by fields in random roles: ordinary, Option, multiple, flatten, boxed, map value, SpannedValue / Override / Rc wrappers, a generic receiver of its own, skipped with or without a user-declared Default bound, inline or in a where-clause; lifetime and const parameters; structs for all six traits with random magic fields, and enums) plus hand-written templates (generic receivers with lifetime, bounded and const params and where-clauses for all six traits, closures and generic paths for with / map / default / and_then, enums with variant names Ok / Err / Some / None, newtype and unit receivers, a receiver inside a nested module) emitted as ONE crate whose syn dependency is renamed (no crate called `syn` in scope) and which imports nothing; oracle: `cargo check` reports no error; each error is attributed to a receiver through its line range. evaluations = receivers compiled. Non-trivial: the declaration carries at least one #[darling(..)] option; distinct by construction (one declaration each)" % len(meta["specs"]),
+            "rule": "accepted receiver declarations of the C01/C09/C16 option space (%d generated specs with field names from a hostile pool: darling's option words, plausible locals of generated code such as e / i / len / errors / item / value, raw identifiers) plus randomly composed generic receivers (1-3 type parameters named T / U / Item / Vec / Option / Result / Error / FromMeta / Box / String ..., each used by fields in random roles: ordinary, Option, multiple, flatten, boxed, map value, SpannedValue / Override / Rc wrappers, a generic receiver of its own, skipped with or without a user-declared Default bound, inline or in a where-clause; lifetime and const parameters; structs for all six traits with random magic fields, and enums) plus hand-written templates (generic receivers with lifetime, bounded and const params and where-clauses for all six traits, closures and generic paths for with / map / default / and_then, enums with variant names Ok / Err / Some / None, newtype and unit receivers, a receiver inside a nested module) emitted as ONE crate whose syn dependency is renamed (no crate called `syn` in scope) and which imports nothing; oracle: `cargo check` reports no error, with darling's default features and with `--no-default-features`; each error is attributed to a receiver through its line range. evaluations = receivers compiled. Non-trivial: the declaration carries at least one #[darling(..)] option; distinct by construction (one declaration each)" % len(meta["specs"]),
             "classes": classes, "samples": samples, "violations": violations, "known_hits": known_hits, "excluded_known": 0, "exhaustive": None,
             "notes": ["cargo check took %.1fs" % (time.time() - t0)]}
     os.makedirs(out, exist_ok=True)
